@@ -1,11 +1,11 @@
 SPECIFICATION Spec
 CONSTANTS
-  Mode = "select"
-  L = 3
-  MaxIns = 3
+  Mode = "scan"
+  MaxSeq = 4
+  MaxQ = 2
   Batch = 200
   Stride = 1
   Offset = 0
-  Devs = {"RgPt", "BwRev", "BwOrigin", "WrapSlice", "RepairCp", "RepairJn"}
+  Devs = {"RgPt"}
 
 CHECK_DEADLOCK FALSE
